@@ -112,6 +112,14 @@ var verifDir = func() string {
 	return "/verif"
 }()
 
+// RepoDir is the checkout of gopatch the checks run against (/repo unless VERIF_REPO is set).
+func RepoDir() string {
+	if d := os.Getenv("VERIF_REPO"); d != "" {
+		return d
+	}
+	return "/repo"
+}
+
 func envInt(k string, def int64) int64 {
 	if v := os.Getenv(k); v != "" {
 		if n, err := strconv.ParseInt(v, 10, 64); err == nil {
